@@ -85,7 +85,8 @@ def wlTab : Nat := 106
 /-- NEO: balances 101, 111 = "BalanceHeight is the persisting block", 112 = GAS reward the account gets
     when it is first touched in this block (computed by the node before the block), 113 = votes for
     the candidate, 114 = the candidate's votes, 115 = voters count, 116 = GAS reward computed by the
-    running native call and not yet minted. -/
+    running native call and not yet minted (key = 100 * tag of the call + account: the value lives
+    in a Go closure of that call, other calls do not see it). -/
 def neoTab : Nat := 101
 def neoHTab : Nat := 111
 def rewardTab : Nat := 112
@@ -124,15 +125,15 @@ inductive NOp where
   | setWl (c fee : Nat)
   | delWl (c : Nat)
   /-- `NEO.transfer(self, to, amt, data)` without the deferred GAS minting (see `mint`). -/
-  | neoXfer (to amt : Nat) (isC : Bool)
+  | neoXfer (to amt : Nat) (isC : Bool) (tag : Nat)
   /-- `NEO.vote(self, candidate | null)` without the deferred GAS minting. -/
-  | vote (on : Bool)
+  | vote (on : Bool) (tag : Nat)
   /-- the deferred part of a NEO method: mint the reward computed before (GAS.MintDeferrable with
       onNEP17Payment(null, amount, null)); `who = 99` is the calling contract. -/
-  | mint (who : Nat)
+  | mint (who tag : Nat)
   /-- the first part of `Policy.blockAccount(a)` (HFFaun): `NEO.RevokeVotes(a)` unless `a` is blocked
       already; its deferred GAS minting is `mint a`, the block itself is `block a`. -/
-  | revoke (a : Nat)
+  | revoke (a tag : Nat)
   deriving Repr, DecidableEq
 
 inductive Tree where
@@ -150,8 +151,11 @@ inductive Tree where
   | try_ (body : Tree) (hasC : Bool) (cat : Tree) (hasF : Bool) (fin : Tree)
   | throw
   | abort
-  /-- native call; `cb` is what the receiver's `onNEP17Payment` runs. -/
-  | native (o : NOp) (fl : Flags) (cb : Tree)
+  /-- native call; `cb` is what the receiver's `onNEP17Payment` runs; `k` is the rest of the native
+      method, run inside the same frame after the callback returned (further phases, each an `inner`
+      native node). `inner`: a further phase of the running native method — no System.Contract.Call,
+      no flag intersection, no frame of its own. -/
+  | native (inner : Bool) (o : NOp) (fl : Flags) (cb : Tree) (k : Tree)
   deriving Repr
 
 inductive Res (α : Type) where
@@ -172,12 +176,12 @@ structure NatOut where
 
 /-- first touch of a NEO account in the persisting block (native_neo.go distributeGas): the
     reward is computed and scheduled, BalanceHeight becomes the block index. -/
-def neoTouch (view : Key → Option Nat) (a : Nat) : List Write :=
+def neoTouch (view : Key → Option Nat) (a tag : Nat) : List Write :=
   match view (neoHTab, a) with
   | some _ => []
   | none =>
     let r := (view (rewardTab, a)).getD 0
-    (if r = 0 then [] else [.set (pendTab, a) r]) ++ [.set (neoHTab, a) 1]
+    (if r = 0 then [] else [.set (pendTab, 100 * tag + a) r]) ++ [.set (neoHTab, a) 1]
 
 /-- `none` = the native method panics (FAULT). -/
 def natStep (o : NOp) (self : Nat) (f : Flags) (view : Key → Option Nat) : Option NatOut :=
@@ -260,7 +264,7 @@ def natStep (o : NOp) (self : Nat) (f : Flags) (view : Key → Option Nat) : Opt
     match view (wlTab, c) with
     | some _ => some ⟨[.del (wlTab, c)], [(wlTab, c)], none, false⟩
     | none => none
-  | .neoXfer to amt isC =>
+  | .neoXfer to amt isC tag =>
     if !(f.r && f.w && f.c && f.n) then none else
     if self = entryId then some ⟨[], [], none, false⟩ else
     let cb : Option Nat := if isC && alive view to then some to else none
@@ -268,7 +272,7 @@ def natStep (o : NOp) (self : Nat) (f : Flags) (view : Key → Option Nat) : Opt
     | none => if amt = 0 then some ⟨[], [(neoTab, 0)], cb, false⟩ else some ⟨[], [], none, false⟩
     | some bal =>
       if bal < amt then some ⟨[], [], none, false⟩ else
-      let touchF := neoTouch view self
+      let touchF := neoTouch view self tag
       if self = to ∨ amt = 0 then some ⟨touchF, [(neoTab, amt)], cb, false⟩ else
       let voting := (view (voteTab, self)).isSome
       let votesF : List Write := if voting then
@@ -284,9 +288,9 @@ def natStep (o : NOp) (self : Nat) (f : Flags) (view : Key → Option Nat) : Opt
         | some tb =>
           (.set (neoTab, to) (tb + amt)) ::
           ((if (view (voteTab, to)).isSome then [.set (votersTab, 0) (voters1 + amt), .set (candTab, 0) (cand1 + amt)] else [])
-            ++ neoTouch view to)
+            ++ neoTouch view to tag)
       some ⟨toW ++ balF ++ votesF ++ touchF, [(neoTab, amt)], cb, false⟩
-  | .vote on =>
+  | .vote on tag =>
     if !(f.r && f.w && f.n) then none else
     if self = entryId then some ⟨[], [], none, false⟩ else
     match view (neoTab, self) with
@@ -298,8 +302,8 @@ def natStep (o : NOp) (self : Nat) (f : Flags) (view : Key → Option Nat) : Opt
       let wVoters : List Write := if old = on then [] else [.set (votersTab, 0) (if on then voters + bal else voters - bal)]
       let wCand : List Write := if old = on then [] else [.set (candTab, 0) (if on then cand + bal else cand - bal)]
       let wVote : List Write := if on then [.set (voteTab, self) 1] else [.del (voteTab, self)]
-      some ⟨wVote ++ wCand ++ neoTouch view self ++ wVoters, [(voteTab, self)], none, false⟩
-  | .revoke a =>
+      some ⟨wVote ++ wCand ++ neoTouch view self tag ++ wVoters, [(voteTab, self)], none, false⟩
+  | .revoke a tag =>
     if !(f.r && f.w && f.n) then none else
     match view (blockTab, a) with
     | some _ => some ⟨[], [], none, false⟩
@@ -310,15 +314,15 @@ def natStep (o : NOp) (self : Nat) (f : Flags) (view : Key → Option Nat) : Opt
         let old := (view (voteTab, a)).isSome
         let wVoters : List Write := if old then [.set (votersTab, 0) ((view (votersTab, 0)).getD 0 - bal)] else []
         let wCand : List Write := if old then [.set (candTab, 0) ((view (candTab, 0)).getD 0 - bal)] else []
-        some ⟨.del (voteTab, a) :: (wCand ++ neoTouch view a ++ wVoters), [(voteTab, a)], none, false⟩
-  | .mint who =>
+        some ⟨.del (voteTab, a) :: (wCand ++ neoTouch view a tag ++ wVoters), [(voteTab, a)], none, false⟩
+  | .mint who tag =>
     -- runs inside a NEO method (at least States|AllowNotify)
     if !(f.r && f.w && f.n) then none else
     let a := if who = 99 then self else who
-    match view (pendTab, a) with
+    match view (pendTab, 100 * tag + a) with
     | none => some ⟨[], [], none, false⟩
     | some r =>
-      some ⟨[.set (gasTab, a) ((view (gasTab, a)).getD 0 + r), .del (pendTab, a)], [(gasTab, r)],
+      some ⟨[.set (gasTab, a) ((view (gasTab, a)).getD 0 + r), .del (pendTab, 100 * tag + a)], [(gasTab, r)],
         if alive view a then some a else none, false⟩
 
 /-! ## Specification semantics -/
@@ -342,6 +346,18 @@ def spFinExc (rf : St → Res St) (s : St) : Res St :=
   match rf s with
   | .norm s3 => if s3.exc then .thrown s3 else .fault s3
   | r => r
+
+/-- one phase of a native method: its writes and events, then the payment callback it starts. -/
+def spPhase (out : NatOut) (rcb : Nat → St → Res St) (s : St) : Res St :=
+  let s1 : St := { s with σ := out.ws ++ s.σ, ev := s.ev ++ out.evs }
+  match out.cb with
+  | none => .norm s1
+  | some to =>
+    if out.cbAbort then .fault s1 else
+    match rcb to s1 with
+    | .norm s2 => .norm s2
+    | .thrown s2 => .fault s2     -- an exception may not cross a native frame
+    | .fault s2 => .fault s2
 
 def sp : Tree → (c : Nat) → (f : Flags) → St → Res St
   | .skip, _, _, s => .norm s
@@ -383,21 +399,19 @@ def sp : Tree → (c : Nat) → (f : Flags) → St → Res St
     | .fault s1 => .fault s1
   | .throw, _, _, s => .thrown { s with exc := true }
   | .abort, _, _, s => .fault s
-  | .native o fl cb, c, f, s =>
-    if f.r && f.c then
-      let f' := f.and fl
+  | .native inner o fl cb k, c, f, s =>
+    if inner || (f.r && f.c) then
+      let f' := if inner then f else f.and fl
       match natStep o c f' s.σ.get with
       | none => .fault s
       | some out =>
-        let s1 : St := { s with σ := out.ws ++ s.σ, ev := s.ev ++ out.evs }
-        match out.cb with
-        | none => .norm s1
-        | some to =>
-          if out.cbAbort then .fault s1 else
-          match sp cb to f' s1 with
-          | .norm s2 => .norm s2
-          | .thrown s2 => .fault s2     -- an exception may not cross a native frame
-          | .fault s2 => .fault s2
+        match spPhase out (fun to s => sp cb to f' s) s with
+        | .norm s2 =>
+          match sp k c f' s2 with
+          | .norm s3 => .norm s3
+          | .thrown s3 => .fault s3     -- an exception may not cross a native frame
+          | .fault s3 => .fault s3
+        | r => r
     else .fault s
 
 /-! ## The specification with the known deviation built in
@@ -430,6 +444,19 @@ def spKFinExc (rf : KSt → Res KSt) (s : KSt) : Res KSt :=
   match rf s with
   | .norm s3 => if s3.exc then .thrown s3 else .fault s3
   | r => r
+
+/-- a phase of a native method under THE RULE: a payment callback that returns normally while an
+    exception is pending faults the transaction (`callFromNative && !commit`). -/
+def spKPhase (out : NatOut) (rcb : Nat → KSt → Res KSt) (s : KSt) : Res KSt :=
+  let s1 : KSt := { s with σ := out.ws ++ s.σ, ev := s.ev ++ out.evs }
+  match out.cb with
+  | none => .norm s1
+  | some to =>
+    if out.cbAbort then .fault s1 else
+    match rcb to s1 with
+    | .norm s2 => if s2.exc then .fault { s2 with dev := true } else .norm s2
+    | .thrown s2 => .fault s2
+    | .fault s2 => .fault s2
 
 def spK : Tree → (c : Nat) → (f : Flags) → (inTry : Bool) → KSt → Res KSt
   | .skip, _, _, _, s => .norm s
@@ -473,21 +500,21 @@ def spK : Tree → (c : Nat) → (f : Flags) → (inTry : Bool) → KSt → Res 
     | .fault s1 => .fault s1
   | .throw, _, _, _, s => .thrown { s with exc := true }
   | .abort, _, _, _, s => .fault s
-  | .native o fl cb, c, f, t, s =>
-    if f.r && f.c then
-      let f' := f.and fl
+  | .native inner o fl cb k, c, f, t, s =>
+    if inner || (f.r && f.c) then
+      let f' := if inner then f else f.and fl
       match natStep o c f' s.σ.get with
       | none => .fault s
       | some out =>
-        let s1 : KSt := { s with σ := out.ws ++ s.σ, ev := s.ev ++ out.evs }
-        match out.cb with
-        | none => if t && f'.mut && s.exc then .norm { s with dev := true } else .norm s1
-        | some to =>
-          if out.cbAbort then .fault s1 else
-          match spK cb to f' false s1 with
-          | .norm s2 => if s2.exc then .fault { s2 with dev := true } else .norm s2
-          | .thrown s2 => .fault s2
-          | .fault s2 => .fault s2
+        match spKPhase out (fun to s => spK cb to f' false s) s with
+        | .norm s2 =>
+          match spK k c f' false s2 with
+          | .norm s3 =>
+            -- THE RULE, for the native method's own frame
+            if !inner && t && f'.mut && s3.exc then .norm { s with exc := true, dev := true } else .norm s3
+          | .thrown s3 => .fault s3
+          | .fault s3 => .fault s3
+        | r => r
     else .fault s
 
 /-! ## Implementation model -/
@@ -548,6 +575,20 @@ def imFinExc (h : Bool) (rf : ISt → Res ISt) (s : ISt) : Res ISt :=
   | .norm s3 => if s3.exc then raise h s3 else .fault s3
   | r => r
 
+/-- one phase of a native method (native_nep17.go postTransfer / MintDeferrable): writes, events,
+    then the payment callback context; its unload callback fails (`callFromNative && !commit`,
+    call.go:180) when an exception is pending. -/
+def imPhase (out : NatOut) (rcb : Nat → ISt → Res ISt) (s0 : ISt) : Res ISt :=
+  let s1 : ISt := { s0 with top := out.ws ++ s0.top, ev := s0.ev ++ out.evs }
+  match out.cb with
+  | none => .norm s1
+  | some to =>
+    if out.cbAbort then .fault s1 else
+    match rcb to s1 with
+    | .norm s2 => if s2.exc then .fault s2 else .norm s2
+    | .thrown s2 => .fault s2
+    | .fault s2 => .fault s2
+
 def im : Tree → Ctx → ISt → Res ISt
   | .skip, _, s => .norm s
   | .seq a b, x, s =>
@@ -592,24 +633,22 @@ def im : Tree → Ctx → ISt → Res ISt
     | .fault s1 => .fault s1
   | .throw, x, s => raise x.h s
   | .abort, _, s => .fault s
-  | .native o fl cb, x, s =>
-    if x.f.r && x.f.c then
-      let f' := x.f.and fl
-      let wrapped := x.inTry && f'.mut
+  | .native inner o fl cb k, x, s =>
+    if inner || (x.f.r && x.f.c) then
+      let f' := if inner then x.f else x.f.and fl
+      let wrapped := !inner && x.inTry && f'.mut
       let base := s.ev.length
       let s0 := if wrapped then s.push else s
       match natStep o x.c f' s0.view.get with
       | none => .fault s0
       | some out =>
-        let s1 : ISt := { s0 with top := out.ws ++ s0.top, ev := s0.ev ++ out.evs }
-        match out.cb with
-        | none => .norm (s1.unload wrapped base)
-        | some to =>
-          if out.cbAbort then .fault s1 else
-          match im cb ⟨to, f', false, x.h⟩ s1 with
-          | .norm s2 => if s2.exc then .fault s2 else .norm (s2.unload wrapped base)
-          | .thrown s2 => .fault s2
-          | .fault s2 => .fault s2
+        match imPhase out (fun to s => im cb ⟨to, f', false, x.h⟩ s) s0 with
+        | .norm s2 =>
+          match im k ⟨x.c, f', false, x.h⟩ s2 with
+          | .norm s3 => .norm (s3.unload wrapped base)
+          | .thrown s3 => .fault s3
+          | .fault s3 => .fault s3
+        | r => r
     else .fault s
 
 /-! ## Transactions -/
@@ -775,7 +814,7 @@ def safe : Tree → Bool
   | .ifp _ b => safe b
   | .loc b => safe b
   | .call _ _ b => safe b
-  | .native _ _ cb => safe cb
+  | .native _ _ _ cb k => safe cb && safe k
   | .try_ b _ c hasF f =>
     safe b && safe c && safe f && (!hasF || callFree f)
 
